@@ -44,6 +44,28 @@ Section WarmStart.
   Corollary warm_start_lands_on_solution (zero : V) x p_old p_new dx :
     (forall a, vadd a zero = a) -> g x p_old = zero -> H dx = vadd (B (psub p_old p_new)) zero -> g (vadd x dx) p_new = zero.
   Proof. intros Hz Hg E. rewrite (warm_start_linear _ _ _ _ _ E), Hg. apply Hz. Qed.
+
+  (* the CG termination test (scipy.sparse.linalg.cg, atol = 0): |H dx - b| <= rtol |b| with b = B (p_old - p_new).
+     Explicit residual bound for the predicted point: |g(x+dx, p_new)| <= |g(x, p_old)| + rtol |B (p_old - p_new)|;
+     from an equilibrium of the old parameters: |g(x+dx, p_new)| <= rtol |B (p_old - p_new)|. *)
+  Variable nrm : V -> R.
+  Hypothesis nrm_triangle : forall a b, (nrm (vadd a b) <= nrm a + nrm b)%R.
+
+  Theorem warm_start_cg_bound x p_old p_new dx r rtol :
+    H dx = vadd (B (psub p_old p_new)) r -> (nrm r <= rtol * nrm (B (psub p_old p_new)))%R ->
+    (nrm (g (vadd x dx) p_new) <= nrm (g x p_old) + rtol * nrm (B (psub p_old p_new)))%R.
+  Proof.
+    intros E Hr. rewrite (warm_start_linear _ _ _ _ _ E).
+    eapply Rle_trans; [apply nrm_triangle|]. lra.
+  Qed.
+
+  Corollary warm_start_cg_bound_equilibrium (zero : V) x p_old p_new dx r rtol :
+    (forall a, vadd a zero = a) -> g x p_old = zero ->
+    H dx = vadd (B (psub p_old p_new)) r -> (nrm r <= rtol * nrm (B (psub p_old p_new)))%R ->
+    (nrm (g (vadd x dx) p_new) <= rtol * nrm (B (psub p_old p_new)))%R.
+  Proof.
+    intros Hz Hg E Hr. rewrite (warm_start_linear _ _ _ _ _ E), Hg, vadd_comm, Hz. exact Hr.
+  Qed.
 End WarmStart.
 
 (* hypotheses are satisfiable: V = Pm = R *)
